@@ -18,6 +18,7 @@ def _concrete_dists(W):
 
 
 ENTRY_POINTS = ["empi_dists_sequence_from_prob_dists", "empi_dist_sequence_from_prob_dist", "data_from_prob_dist", "dataset_from_prob_dists",
+                "MultinomialDistribution.execute_random_sampling",
                 "Experiment.generate_empi_dists_sequence", "Experiment.generate_data", "Experiment.generate_dataset", "Experiment.generate_empi_dist_sequence",
                 ] + [f"{k}.{m}" for k in ("StandardQst", "StandardPovmt", "StandardQpt", "StandardQmpt")
                      for m in ("generate_empi_dists", "generate_empi_dist", "generate_empi_dists_sequence")]
@@ -35,6 +36,9 @@ def make_call(W, entry):
         return lambda s: dg.generate_data_from_prob_dist(_concrete_dists(W)[0], 2, s)
     if entry == "dataset_from_prob_dists":
         return lambda s: dg.generate_dataset_from_prob_dists(_concrete_dists(W)[:1], [2], [s])
+    if entry == "MultinomialDistribution.execute_random_sampling":
+        md = W.mod("quara.objects.multinomial_distribution").MultinomialDistribution(np.array([0.25, 0.25, 0.5], dtype=np.float64), (3,))
+        return lambda s: md.execute_random_sampling(6, 1, s)
     c_sys, states, povms = exact_testers(W, "1q", False)
     STD = "quara.protocol.qtomography.standard."
     if entry.startswith("Experiment"):
@@ -144,6 +148,7 @@ class SeededGeneration(E2Contract):
                 n1 = len(symrandom.DRAW_LOG)
                 f(None)
                 log = list(symrandom.DRAW_LOG)
+                out["none/advances-the-global-state"] = n1 > 0 and symrandom.GLOBAL.pos == len(symrandom.DRAW_LOG)
                 out["none/uses-global-stream"] = len(log) > 0 and all(e[0] == ("G",) for e in log)
                 out["none/continues-the-global-stream"] = n1 > 0 and [e[1] for e in log] == list(range(len(log)))
             return out
@@ -175,7 +180,9 @@ class SeededGeneration(E2Contract):
             out["generator/uses-only-it"] = x1 == x2
         else:
             numpy.random.seed(99)
+            s_before = state()
             y1 = _norm(f(None))
+            out["none/advances-the-global-state"] = state() != s_before
             f(None)
             e1 = state()
             numpy.random.seed(99)
@@ -212,6 +219,8 @@ class SeededGeneration(E2Contract):
                        "a caller-owned generator is advanced by exactly the draws made"),
                     eq("generator/no-other-source", out["generator/uses-only-it"], True, "and nothing else is drawn from")]
         return [eq("none/global-state", out["none/uses-global-stream"], True, "without seed the global numpy state is the source"),
+                eq("none/the-call-advances-the-global-state", out["none/advances-the-global-state"], True,
+                   "an unseeded call draws from - and therefore advances - the global numpy state"),
                 eq("none/successive-calls-continue-the-global-stream", out["none/continues-the-global-stream"], True,
                    "unseeded calls consume the global stream onwards; nothing on the way re-seeds it")]
 
@@ -425,3 +434,43 @@ class ResetSeed(E2Contract):
         return [eq("global-state==seeded-with-the-new-seed", out["state_ok"], True,
                    "after the reset the global numpy state is the one np.random.seed(new seed) produces (untouched when there is no seed to set)"),
                 eq("reports-the-new-seed", out["seed"], expected_seed, "the object reports the seed now in force")]
+
+
+class DatasetSeeds(E2Contract):
+    """generate_dataset_from_prob_dists with one seed per entry: every entry is generated from a FRESH generator of its own seed (also when the
+    same integer appears twice), i.e. entry k equals generate_data_from_prob_dist(p_k, n_k, seed_k)"""
+    name = "generate_dataset_from_prob_dists: one fresh stream per entry"
+    prop = "C14"
+    targets = (DG + ":generate_dataset_from_prob_dists", DG + ":generate_data_from_prob_dist")
+    frame = False
+    n_conformance = 0
+    max_paths = 600
+
+    def configs(self, tier):
+        return [(5, 5), (0, 0), (3, 9), (0, 1)]
+
+    def inputs(self, W, cfg, mk):
+        return dict(probe=mk.real("probe"))
+
+    def run(self, W, cfg, inp):
+        dg = W.mod(DG)
+        d = _concrete_dists(W)[:2]
+        sizes = [1, 2]
+        if W.symbolic:
+            symrandom.reset()
+            dg.generate_dataset_from_prob_dists(d, sizes, list(cfg))
+            log = list(symrandom.DRAW_LOG)
+            per_entry = []
+            for k in range(2):
+                symrandom.reset()
+                dg.generate_data_from_prob_dist(d[k], sizes[k], cfg[k])
+                per_entry += list(symrandom.DRAW_LOG)
+            return dict(same=log == per_entry, n=len(log))
+        import numpy
+        got = _norm(dg.generate_dataset_from_prob_dists(d, sizes, list(cfg)))
+        want = [_norm(dg.generate_data_from_prob_dist(d[k], sizes[k], cfg[k])) for k in range(2)]
+        return dict(same=got == want, n=len(got))
+
+    def post(self, W, cfg, inp, out):
+        return [eq("entry==data-of-its-own-seed", out["same"], True,
+                   "entry k of the dataset == generate_data_from_prob_dist(p_k, n_k, seed_k): a fresh stream of seed_k, whatever the other entries' seeds are")]
